@@ -102,12 +102,95 @@ def motif_slow_dial(rng, sid, others, timeout):
     return ops
 
 
+def short_len(rng):
+    """payload length of a datagram from the remote that is not the harness's 8-byte tag: mostly EMPTY"""
+    return rng.choice([0, 0, 0, 0, 1, 1, 2, 7, 9, 64])
+
+
+def motif_keepalive(rng, sid, timeout):
+    """the remote's datagrams are the session's ONLY traffic for longer than the idle timeout plus two sweeps, and they are
+    empty (or 1 byte ...): each must go back tagged with the id, the socket must survive, the client's next datagram must
+    leave through the same socket"""
+    ops = [[0, sid, 1], [3]]
+    if rng.random() < 0.3:
+        ops += [[2, rng.choice([1, 250, 999])]]
+    total = 0
+    kind = rng.choice(["empty", "empty", "one", "mixed"])
+    while total <= timeout + 2 * INTERVAL + 500:
+        d = rng.choice([timeout // 2, timeout // 3, timeout - 1, timeout, 500, 999, 1000])
+        d = max(1, min(d, timeout))
+        total += d
+        n = 0 if kind == "empty" else 1 if kind == "one" else short_len(rng)
+        ops += [[2, d], [1, sid, 1, n]]
+        if rng.random() < 0.7:
+            ops += [[3]]
+    ops += [[3], [0, sid, 1], [3]]
+    if rng.random() < 0.5:
+        # then silence: it expires like any other session
+        ops += [[2, timeout + rng.choice([1000, 1001, 1999, 2000])], [3]]
+    return ops
+
+
+def gen_mass(rng):
+    """FINAL cleanup with many sessions while the sweeper is still ticking: 20-40 sessions, some idle past the timeout at
+    the tick T that follows the connection loss, some with traffic in either direction shortly before, some fragment-only;
+    the connection is lost a few ms before T and the first socket Close() calls of cleanup(false) (and / or logger.Close)
+    are slow, so the sweep of T (and later ones) runs INSIDE the final cleanup: two cleanup() calls overlap."""
+    timeout = rng.choice([1000, 1500, 2000, 2000, 3000])
+    how = rng.choice(["sock", "sock", "sock", "sock+log", "log", "none"])
+    # (with a slow logger.Close the acceptor cannot take the table deletes eagerly: its state sets grow with the number of
+    # sessions, so those histories stay small)
+    n = rng.randint(20, 40) if "log" not in how else rng.randint(8, 14)
+    sids = rng.sample(range(100, 400), n)
+    start = rng.choice([0, 0, 1, 137, 500, 999])
+    ops = [[2, start], [3]] if start else [[3]]
+    for sid in sids:
+        ops.append([0, sid, 1 if rng.random() < 0.93 else 0])
+        if rng.random() < 0.1:
+            ops.append([3])
+    ops.append([3])
+    tick = ((start + timeout) // INTERVAL + 1) * INTERVAL          # first sweep at which the untouched sessions are idle
+    delta = rng.choice([1, 1, 5, 5, 50, 300])
+    lose_at = tick - delta
+    # the refreshed ones get their traffic in (tick - timeout, lose_at): live at `tick`
+    lo = max(start + 1, tick - timeout)
+    ref = rng.randint(lo, max(lo, lose_at - 1))
+    ops.append([2, ref - start])
+    frac = rng.choice([0.3, 0.5, 0.5, 0.7, 0.9])
+    live = [sid for sid in sids if rng.random() < frac]
+    if len(live) < 2:
+        live = sids[:n // 2]
+    for sid in live:
+        x = rng.random()
+        if x < 0.5:
+            ops.append([0, sid, 1])
+        elif x < 0.8:
+            ops.append([1, sid, 1])
+        else:
+            ops.append([1, sid, 1, short_len(rng)])
+        if rng.random() < 0.1:
+            ops.append([3])
+    ops.append([3])
+    if lose_at - ref > 0:
+        ops.append([2, lose_at - ref])
+    if how in ("sock", "sock+log"):
+        ops.append([12, rng.choice([1, 1, 2, 3, n]), delta + rng.choice([1, 10, 10, 500, 1000, 1500, 2500])])
+    if how in ("log", "sock+log"):
+        ops.append([9, rng.choice([1, 2, 5, n])])
+    if rng.random() < 0.5:
+        ops.append([3])
+    ops.append([8])
+    return {"timeout": timeout, "ops": ops}
+
+
 def gen_history(rng, idx):
     timeout = rng.choice([1500, 2000, 2000, 2500, 3000, 1000, 700])
     sids = rng.sample([1, 2, 3, 4, 5, 6, 77, 4294967295], rng.choice([1, 2, 3, 6]))
     nops = rng.randint(10, 70)
     p_reuse = rng.choice([0.0, 0.03, 0.06])
     p_slow = rng.choice([0.0, 0.0, 0.03, 0.06])
+    p_keep = rng.choice([0.0, 0.0, 0.02])
+    p_short = rng.choice([0.0, 0.1, 0.3, 1.0])
     burst = rng.choice([0.0, 0.2, 0.5, 0.9])
     faulty = rng.random() < 0.6
     sleeps = [1, 10, 250, 500, 990, 999, 1000, 1001, 1500, timeout - 1000, timeout - 1, timeout, timeout + 1,
@@ -124,12 +207,15 @@ def gen_history(rng, idx):
         if y < p_reuse + p_slow:
             ops += motif_slow_dial(rng, sid, [q for q in sids if q != sid], timeout)
             continue
+        if y < p_reuse + p_slow + p_keep:
+            ops += motif_keepalive(rng, sid, timeout)
+            continue
         if x < 0.38:
             ops.append([0, sid, 1])
         elif x < 0.45:
             ops.append([0, sid, 0])
         elif x < 0.65:
-            ops.append([1, sid, 1])
+            ops.append([1, sid, 1, short_len(rng)] if rng.random() < p_short else [1, sid, 1])
         elif x < 0.69:
             ops.append([1, sid, 0])
         elif x < 0.86:
@@ -189,8 +275,22 @@ def gen(rng, tier):
         {"timeout": 1000, "ops": [[0, 7, 1], [3], [2, 2000], [3], [0, 7, 1], [3], [1, 7, 0], [3], [0, 7, 1], [3], [4, 1], [2, 2500], [3],
                                   [0, 7, 1], [3], [0, 7, 1], [1, 7, 1], [3], [8]]},
     ]
+    cases += [
+        # the remote's EMPTY datagrams are the session's only traffic for 6 s (timeout 2 s): every one goes back tagged with
+        # the id, the socket survives, the client's next datagram leaves through it
+        {"timeout": 2000, "ops": [[0, 7, 1], [3]] + [x for _ in range(12) for x in ([2, 500], [1, 7, 1, 0], [3])] + [[0, 7, 1], [3], [8]]},
+        # the same with 1-byte datagrams every timeout-1 ms, a second session idle meanwhile (it does expire)
+        {"timeout": 1500, "ops": [[0, 1, 1], [0, 2, 1], [3]] + [x for _ in range(4) for x in ([2, 1499], [1, 1, 1, 1], [3])] + [[0, 1, 1], [0, 2, 1], [3], [8]]},
+        # 40 sessions, 20 of them with traffic at 1500 ms; the connection is lost at 2995 ms and the first Close() of the final
+        # cleanup takes 10 ms: the sweep of 3000 ms (20 idle sessions) runs inside cleanup(false)
+        {"timeout": 2000, "ops": [[3]] + [[0, 100 + i, 1] for i in range(40)] + [[3], [2, 1500]] + [[0, 100 + 2 * i, 1] for i in range(20)] +
+                                 [[3], [2, 1495], [12, 1, 10], [8]]},
+    ]
+    n_mass = 6 if tier == "quick" else 150
+    for _ in range(n_mass):
+        cases.append(gen_mass(rng))
     k = 0
-    while len(cases) < n + 11:
+    while len(cases) < n + 14 + n_mass:
         sub = random_sub(rng, k)
         k += 1
         cases.append(sub)
@@ -199,6 +299,15 @@ def gen(rng, tier):
 
 def random_sub(rng, k):
     """every 4th history is built around the two motifs (one or two ids only); the rest is the general mix"""
+    if k % 10 == 5:
+        # the reply direction on its own: keep-alives of empty / tiny datagrams from the remote
+        timeout = rng.choice([700, 1000, 1500, 2000, 3000])
+        sids = rng.sample([1, 2, 3, 77, 4294967295], rng.choice([1, 2]))
+        ops = []
+        for sid in sids:
+            ops += motif_keepalive(rng, sid, timeout)
+        ops.append([8])
+        return {"timeout": timeout, "ops": ops}
     if k % 4 != 3:
         return gen_history(rng, k)
     timeout = rng.choice([700, 1000, 1500, 2000, 3000])
@@ -242,9 +351,9 @@ def events(o):
         elif k == "write":
             out.append(("Wk %d %d" if ok else "Wf %d %d") % (sock, ev.get("sid2", 0)))
         elif k == "read":
-            out.append(("Gk %d" if ok else "Gf %d") % sock)
+            out.append("Gk %d %d" % (sock, ev.get("nb", 1) - 1) if ok else "Gf %d" % sock)
         elif k == "send":
-            out.append(("Sk %d %d" if ok else "Sf %d %d") % (max(sock, 0) if sock >= 0 else 999999, sid))
+            out.append(("Sk %d %d %d" if ok else "Sf %d %d %d") % (max(sock, 0) if sock >= 0 else 999999, sid, ev.get("nb", 1) - 1))
         elif k == "close":
             out.append("Cl %d" % sock)
         elif k == "logclose":
@@ -258,7 +367,10 @@ def to_coq(c, o):
     if "log" not in o:
         return None
     slow = any(op[0] in (10, 11) for op in c["ops"])
-    return "CHist %d %d %s [%s]" % (c["timeout"], o.get("count", 0), "true" if slow else "false", ";".join(events(o)))
+    slowc = any(op[0] == 12 for op in c["ops"])
+    slowl = any(op[0] == 9 for op in c["ops"])
+    b = lambda x: "true" if x else "false"
+    return "CHist %d %d %s %s %s [%s]" % (c["timeout"], o.get("count", 0), b(slow), b(slowc), b(slowl), ";".join(events(o)))
 
 
 def _feat(c, o):
